@@ -1341,6 +1341,8 @@ class Pool:
 
     def _iterinactive(self):
         for worker in self._pool:
+            if getattr(worker, '_controlled_termination', False):
+                continue  # already told to exit, not yet reaped
             if not self._worker_active(worker):
                 yield worker
 
